@@ -23,6 +23,8 @@
 EXTENDS SymLayers
 
 AName(u, i) == "a" \o ToString(u) \o "_" \o ToString(i)
+IName(u, i) == "i" \o ToString(u) \o "_" \o ToString(i)          \* the input layer u PROCESSES (after skip accumulation)
+EName(u, i) == "e" \o ToString(u) \o "_" \o ToString(i)          \* gradient of the objective w.r.t. that input
 KName(u, j) == "k" \o ToString(u) \o "_" \o ToString(j)
 DName(u, i) == "d" \o ToString(u) \o "_" \o ToString(i)
 
@@ -36,14 +38,16 @@ MkCfg(prev, s) ==
   IF s.kind = "dense"
     THEN [kind |-> "dense", c |-> Prod(prev), h |-> 1, w |-> 1, f |-> s.f, kh |-> 1, kw |-> 1, sh |-> 1, sw |-> 1,
           ph |-> 0, pw |-> 0, dh |-> 1, dw |-> 1, act |-> "linear", bias |-> s.bias]
-    ELSE [kind |-> s.kind, c |-> prev[1], h |-> prev[2], w |-> prev[3], f |-> s.f, kh |-> s.kh, kw |-> s.kw,
+    ELSE [kind |-> s.kind, c |-> prev[1], h |-> prev[2], w |-> prev[3], f |-> IF s.kind = "pool" THEN 1 ELSE s.f, kh |-> s.kh, kw |-> s.kw,
           sh |-> s.sh, sw |-> s.sw, ph |-> s.ph, pw |-> s.pw, dh |-> s.dh, dw |-> s.dw, act |-> "linear", bias |-> FALSE]
 
 RECURSIVE MkChain(_, _)
 \* sequence of [cfg, act] for the hyper-parameter list `specs` applied to an input of shape `prev`
 MkChain(prev, specs) ==
   IF specs = <<>> THEN <<>>
-  ELSE LET c == MkCfg(prev, specs[1]) IN <<[cfg |-> c, act |-> specs[1].act]>> \o MkChain(OutShape(c), Tail(specs))
+  ELSE LET c == MkCfg(prev, specs[1])
+           a == IF specs[1].kind = "pool" THEN "linear" ELSE specs[1].act        \* a max-pool layer has no activation
+       IN <<[cfg |-> c, act |-> a]>> \o MkChain(OutShape(c), Tail(specs))
 ChainOut(prev, chain) == IF chain = <<>> THEN prev ELSE OutShape(chain[Len(chain)].cfg)
 
 \* items: <<[kind |-> "layer", spec |-> s]>> or <<[kind |-> "fb", specs |-> <<s..>>, loops |-> k]>>
@@ -92,9 +96,40 @@ GradKOf(L, u, fwd) ==
 GradPrevOf(L, u, fwd) ==
   [i \in 1..NX(L.cfg) |-> SumSeqT([n \in 1..Len(fwd) |-> A!Mul(A!Leaf(DName(u, n)), A!D(fwd[n], AName(u - 1, i)))])]
 
-Program(un) ==
+\* ---- networks with additive skip connections ------------------------------------------------------------
+\* connect: set of <<target, source>> over the unrolled layers: the input layer `target` processes is its ordinary input
+\* PLUS the input layer `source` processed (source <= target, equal element counts; regrouping between shapes is the
+\* row-major identity on the flat index).  Programs, per layer u:
+\*     i<u>_k := a<u-1>_k [+ i<s>_k]            a<u>_n := act(pre_n(i<u>_*, k<u>_*))
+\*     e<u>_k := sum_n d<u>_n * D(a<u>_n, i<u>_k) + sum over targets t of u: e<t>_k        (reverse order)
+\*     d<u-1>_k := e<u>_k                      gk<u>_j := sum_n d<u>_n * D(a<u>_n, k<u>_j)
+SourceOf(connect, u) == IF \E p \in connect : p[1] = u THEN (CHOOSE p \in connect : p[1] = u)[2] ELSE 0   \* source < target
+TargetsOf(connect, u) == {p[1] : p \in {q \in connect : q[2] = u /\ q[1] # u}}
+FwdOfS(L, u) ==
+  LET c == L.cfg
+      env == NameMap("x", NX(c), LAMBDA i : A!Leaf(IName(u, i))) @@ NameMap("k", NK(c), LAMBDA j : A!Leaf(KName(u, j)))
+      p == PreT(c)
+  IN [n \in 1..Len(p) |-> ActT(L.act, A!Subst(p[n], env))]
+InOfS(L, u, connect) ==
+  LET s == SourceOf(connect, u) IN
+  [k \in 1..NX(L.cfg) |->
+     IF s = 0 THEN A!Leaf(AName(u - 1, k)) ELSE A!Add(A!Leaf(AName(u - 1, k)), A!Leaf(IName(s, k)))]
+GradInOfS(L, u, fwd, connect) ==
+  LET s == SourceOf(connect, u)
+      own(k) == SumSeqT([n \in 1..Len(fwd) |-> A!Mul(A!Leaf(DName(u, n)), A!D(fwd[n], IName(u, k)))])
+      ts == TargetsOf(connect, u)
+  IN [k \in 1..NX(L.cfg) |->
+        LET RECURSIVE Acc(_, _)
+            Acc(t, S) == IF S = {} THEN t ELSE LET q == CHOOSE q \in S : \A r \in S : q <= r IN Acc(A!Add(t, A!Leaf(EName(q, k))), S \ {q})
+        IN Acc(own(k), ts)]
+\* gradient handed to the layer before (self-connections are not generated here)
+GradPrevOfS(L, u, connect) == [k \in 1..NX(L.cfg) |-> A!Leaf(EName(u, k))]
+ProgramS(un, connect) ==
   [u \in 1..Len(un) |->
-     LET L == un[u] fwd == FwdOf(L, u) IN
+     LET L == un[u] fwd == FwdOfS(L, u) IN
      [cfg |-> L.cfg, act |-> L.act, group |-> L.group, nx |-> NX(L.cfg), nk |-> NK(L.cfg), no |-> Len(fwd),
-      out |-> OutShape(L.cfg), pre |-> PreOf(L, u), fwd |-> fwd, gk |-> GradKOf(L, u, fwd), gprev |-> GradPrevOf(L, u, fwd)]]
+      out |-> OutShape(L.cfg), inp |-> InOfS(L, u, connect), fwd |-> fwd,
+      gk |-> [j \in 1..NK(L.cfg) |-> SumSeqT([n \in 1..Len(fwd) |-> A!Mul(A!Leaf(DName(u, n)), A!D(fwd[n], KName(u, j)))])],
+      gin |-> GradInOfS(L, u, fwd, connect), gprev |-> GradPrevOfS(L, u, connect)]]
+
 =============================================================================
